@@ -1346,6 +1346,12 @@ def build_similarity_probe(case) -> Probe:
             kw["norm"] = case["norm"]
         labels.append(f"mask={case['mask']}")
         xl, yl, leaves = pick(x, y)
+        if case["wrt"] == "weights" and "mask" in kw:
+            # soft masks are multiplicative weights (masked_loss) and normalise the mean (reduce_loss):
+            # the loss sum(l*m)/sum(m) is a differentiable function of the mask (e.g. a warped overlap mask)
+            kw["mask"] = _leaf(kw["mask"])
+            leaves = leaves + [kw["mask"]]
+            labels.append("mask_leaf")
         if case.get("module") and case.get("norm_from") and "norm" not in kw:
             kw["norm_from"] = (x, y) if case["norm_from"] == "both" else (x, None)
         call = _loss_fn(case, entry, kw)
@@ -1362,6 +1368,10 @@ def build_similarity_probe(case) -> Probe:
         if entry == "lcc_loss" and case["mask"] is not None:  # ncc_loss rejects every mask (K6, C16)
             kw["mask"] = _posmask((N, 1) + shape, key + 108)
             labels.append(f"mask={case['mask']}")
+            if case["wrt"] == "weights":  # local scores are weighted by the mask and the mean is normalised by its sum
+                kw["mask"] = _leaf(kw["mask"])
+                leaves = leaves + [kw["mask"]]
+                labels.append("mask_leaf")
         if entry == "wlcc_loss":
             if case["wmask"] == "mask":
                 kw["mask"] = _posmask((N, 1) + shape, key + 108)
@@ -1453,7 +1463,11 @@ def build_similarity_probe(case) -> Probe:
         xl = _leaf(x)
         if entry == "reduce_loss":
             mk = None if case["mask"] is None else m
-            return Probe([xl], lambda: L.reduce_loss(xl * 1.0, reduction=red, mask=mk), 1.0, labels=labels + [f"mask={case['mask']}"])
+            leaves = [xl]
+            if mk is not None and case["wrt"] == "weights" and red == "mean":  # only 'mean' uses the mask: it divides by its sum
+                mk = _leaf(mk)
+                leaves = [xl, mk]
+            return Probe(leaves, lambda: L.reduce_loss(xl * 1.0, reduction=red, mask=mk), 1.0, labels=labels + [f"mask={case['mask']}"])
         ml = _leaf(m) if case["wrt"] == "weights" else m
         inplace = case["normalize"]  # in-place multiplication of a fresh intermediate
         leaves = [xl, ml] if ml.requires_grad else [xl]
